@@ -89,6 +89,7 @@ def infer(models, opts, pre_merge_hook=None):
         pre_merge_hook(run)
     run.replaces = run.registry.merge_models(run.generator)
     run.registry.generate_names()
+    run.raw_names = {ix: m.name for ix, m in run.registry.models_map.items()}
     return run
 
 
